@@ -96,6 +96,50 @@ def real_core(job):
                 if serdes.load(nt) is not nt:
                     res["nontext_changed"] = repr(nt)
             outs.append(res)
+        elif kind == "codec":
+            # C02: the three entry points under three encoder/decoder configurations
+            import json as _json
+            from typelib.py import compat
+            def std_enc(m):
+                return _json.dumps(m).encode()
+            def tag_enc(m):
+                return b"TAG:" + _json.dumps(m, separators=(",", ":")).encode()
+            def tag_dec(b):
+                assert bytes(b[:4]) == b"TAG:"
+                return _json.loads(bytes(b[4:]))
+            confs = {"default": {}, "stdlib": {"encoder": std_enc, "decoder": _json.loads},
+                     "tagging": {"encoder": tag_enc, "decoder": tag_dec}}
+            res = {"mar": enc.run_real(lambda: typelib.marshal(v, t=ann), P), "confs": {}}
+            for cname, kw in confs.items():
+                ekw = {k: f for k, f in kw.items() if k == "encoder"}
+                dkw = {k: f for k, f in kw.items() if k == "decoder"}
+                encoder = kw.get("encoder", compat.json.dumps)
+                decoder = kw.get("decoder", compat.json.loads)
+                c = {}
+                box = {}
+                def cenc():
+                    box["c"] = typelib.codec(ann, **kw)
+                    box["b"] = box["c"].encode(v)
+                    return box["b"]
+                r1 = enc.run_real(cenc, P)
+                c["codec_encode"] = {k: r1[k] for k in r1 if k in ("err", "msg")} or {"ok": True}
+                if "b" in box:
+                    b = box["b"]
+                    c["is_bytes"] = isinstance(b, bytes)
+                    c["api_encode_same"] = enc.run_real(lambda: typelib.encode(v, t=ann, **ekw) == b, P)
+                    c["compose_encode_same"] = enc.run_real(lambda: encoder(typelib.marshal(v, t=ann)) == b, P)
+                    if cname != "tagging":
+                        try:
+                            c["json_loads"] = {"ok": enc.from_py(_json.loads(b), P)}
+                        except Exception as e:  # noqa: BLE001
+                            c["json_loads"] = {"err": enc.err_class(e), "msg": str(e)[:100]}
+                    c["codec_decode"] = enc.run_real(lambda: box["c"].decode(b), P)
+                    c["api_decode"] = enc.run_real(lambda: typelib.decode(ann, b, **dkw), P)
+                    c["compose_decode"] = enc.run_real(lambda: typelib.unmarshal(ann, decoder(b)), P)
+                else:
+                    c["api_encode"] = enc.run_real(lambda: typelib.encode(v, t=ann, **ekw), P)
+                res["confs"][cname] = c
+            outs.append(res)
         elif kind == "union":
             members = [P.annotation(m) for m in op["members"]]
             res = {"union": enc.run_real(lambda: typelib.unmarshal(ann, v), P),
@@ -239,7 +283,7 @@ def lean_core(jobs):
             if op["op"] == "strload":
                 l = {"op": "strload", "s": op["s"]}
             else:
-                l = {"op": {"umum": "um", "textequiv": "um", "union": "um"}.get(op["op"], op["op"]), "val": op["val"]}
+                l = {"op": {"umum": "um", "textequiv": "um", "union": "um", "codec": "mar"}.get(op["op"], op["op"]), "val": op["val"]}
                 if "ty" in op:
                     l["ty"] = enc.strip_hints(op["ty"])
             lines.append(l)
